@@ -414,8 +414,22 @@ func (a *parserAnchors) foldPredicate(c *Ctx, call *ssa.Call, want bool, from *s
 	}
 	// arguments besides the receiver: constants and literal lists of constants (`p.peekIs(token.A, token.B)`)
 	argVals := map[ssa.Value]*aval{}
+	argDims := map[ssa.Value]string{}
 	for i, av := range call.Call.Args {
 		if i == 0 {
+			continue
+		}
+		// the peek / current token's type or after-newline flag handed in as an argument: the parameter stands for that
+		// part of the folded state
+		switch {
+		case tokenFieldLoad(av, a.peek, "Type"):
+			argDims[cal.Params[i]] = a.peek.Name() + ".Type"
+			continue
+		case tokenFieldLoad(av, a.cur, "Type"):
+			argDims[cal.Params[i]] = a.cur.Name() + ".Type"
+			continue
+		case tokenFieldLoad(av, a.peek, "AfterNewline"):
+			argDims[cal.Params[i]] = a.peek.Name() + ".AfterNewline"
 			continue
 		}
 		v := literalArg(av)
@@ -430,6 +444,11 @@ func (a *parserAnchors) foldPredicate(c *Ctx, call *ssa.Call, want bool, from *s
 	reads := map[string]*types.Var{}
 	if !a.predicateReads(cal, map[*ssa.Function]bool{}, reads) {
 		return nil
+	}
+	for _, path := range argDims {
+		if _, ok := reads[path]; !ok {
+			reads[path] = nil
+		}
 	}
 	// the token constants the predicate can tell apart: those its code and its tables mention
 	mention := map[int64]bool{}
@@ -565,6 +584,13 @@ func (a *parserAnchors) foldPredicate(c *Ctx, call *ssa.Call, want bool, from *s
 		env := map[ssa.Value]*aval{cal.Params[0]: {tag: "recv"}}
 		for pv, v := range argVals {
 			env[pv] = v
+		}
+		for pv, path := range argDims {
+			sv := &aval{k: st[path]}
+			if strings.HasSuffix(path, ".Type") {
+				sv.tag = "toktype"
+			}
+			env[pv] = sv
 		}
 		rv, ok := pf.run(cal, env, 0)
 		if !ok || rv == nil || rv.k == nil || rv.k.Kind() != constant.Bool {
